@@ -251,7 +251,9 @@ def make_frame(gen, rnd, w, combo, obs, kinds=None, big=False):
         obs["version_frames"] = obs.get("version_frames", 0) + 1
         sep = "|" if gen == 4 else ","
         return con.f_ext(0xFF30, R.version_body(rnd.random() < 0.5, rnd.choice(
-            [["1.2.3"], ["1.2.4", "1.2.3"], ["9.9"]]), sep))
+            [["1.2.3"], ["1.2.4", "1.2.3"], ["9.9"],
+             # the same strings in another order / another number of times
+             ["1.2.3", "1.2.4"], ["1.2.3", "1.2.3"], ["1.2.4", "1.2.3", "1.2.4"]]), sep))
     return con.frame_unknown(rnd.choice([0x77, 0x01]), rnd.randbytes(rnd.randint(0, 9)))
 
 
